@@ -153,6 +153,17 @@ func c04Apply(cs *c04Case, a, b *genetics.Genome) (*genetics.Genome, error) {
 	case 2:
 		f2 = 0.5
 	}
+	if cs.Layout == 1 {
+		// in the second node layout an unequal pair of fitness values is the closest possible one:
+		// 0.3 against 0.1+0.2 (one unit in the last place apart) - still not a tie
+		f1, f2 = 0.1+0.2, 0.1+0.2
+		switch cs.Fit {
+		case 0:
+			f1 = 0.3
+		case 2:
+			f2 = 0.3
+		}
+	}
 	switch cs.Method {
 	case "mateMultipoint":
 		return a.VMateMultipoint(b, 77, f1, f2)
@@ -487,7 +498,7 @@ func runC04(c *Ctx) {
 	c.Extra["master_list_k"] = bd.K
 	c04Enumerate(c, bd, c04Oracle(c))
 	c.States = int64(len(c.distinct))
-	c.Rule = fmt.Sprintf("parents = every non-empty well-formed subset of a master list of k=%d innovations over {bias, 2 inputs, output(s), 2 hidden} - in three node layouts: outputs before the hidden nodes; hidden nodes before two outputs; node ids counted from 0 with both parents carrying the same genome id - that contains two innovations for the same link, a forward and a recurrent gene between one node pair and a recurrent self-loop (k >= 6: in the alphabet; below: the gene lists over {#1,#2,#3,#6} containing it are added); all ordered pairs x enabled patterns x trait patterns {mixed, nil, (thorough: uniform)} x fitness orders {<,=,>} x {multipoint, multipoint-avg, single-point} x every choice sequence of the mate call (complete tree when <= 3 (multipoint) / <= 1 (avg) genes match and always for single-point, else all sequences within 3 / 2 deviations of Z, M, H); weights and mutation numbers from the hard-float alphabet. Oracle = the C04 statement clause by clause. states = distinct ordered parent pairs, transitions = mate calls on the real code", bd.K)
+	c.Rule = fmt.Sprintf("parents = every non-empty well-formed subset of a master list of k=%d innovations over {bias, 2 inputs, output(s), 2 hidden} - in three node layouts: outputs before the hidden nodes; hidden nodes before two outputs; node ids counted from 0 with both parents carrying the same genome id - that contains two innovations for the same link, a forward and a recurrent gene between one node pair and a recurrent self-loop (k >= 6: in the alphabet; below: the gene lists over {#1,#2,#3,#6} containing it are added); all ordered pairs x enabled patterns x trait patterns {mixed, nil, (thorough: uniform)} x fitness orders {<,=,>} (values 0.5 / 1, in the second node layout 0.3 / 0.1+0.2, one unit in the last place apart) x {multipoint, multipoint-avg, single-point} x every choice sequence of the mate call (complete tree when <= 3 (multipoint) / <= 1 (avg) genes match and always for single-point, else all sequences within 3 / 2 deviations of Z, M, H); weights and mutation numbers from the hard-float alphabet. Oracle = the C04 statement clause by clause. states = distinct ordered parent pairs, transitions = mate calls on the real code", bd.K)
 	c.Assume("parents share consistent innovation numbering (equal number => equal link); conflicting numbering appears only as two numbers for one link")
 	c.Assume("Go toolchain, go build -overlay, the instrumenter and the accessor file are trusted")
 }
